@@ -5,6 +5,9 @@ Model of the constant mode of circuit bootstrapping (C15)
   poulpy-bin-fhe/src/circuit_bootstrapping/circuit.rs   circuit_bootstrap_core(to_exponent = false, …):
       the table `f`, `gap`, and the row loop `row_i ← trace(res); res ← X^{-gap}·res`
 
+and of the exponent mode (`to_exponent = true`): the table, the right rotation, `post_process` (partial trace, the
+`2^log_domain` rotated copies, `glwe_pack`; or the partial trace alone when `log_gap_in = log_gap_out`)
+
 at plaintext level.  The blind rotation itself is `Lut.blindPlain` / `Lut.blindExt`; the trace keeps the constant
 coefficient (C03), `ggsw_expand_row` turns the `dnum` rows into a GGSW (C04) — both enter the theorems as contracts.
 -/
@@ -30,5 +33,46 @@ iterations the blind-rotation output is rotated by `-gap` -/
 def cbtRows (dnum gap : Nat) (P : List Vec) : List Vec :=
   (List.range dnum).map fun i =>
     (((List.range i).foldl (fun p _ => rotate (-(gap : Int)) p) P)[0]?).getD []
+
+/-! ### exponent mode -/
+
+/-- the table of the exponent mode: `f[i] = 1 << (res_base2k * (dnum_res - 1 - i))` for `i < dnum_res`, zero elsewhere,
+length `(1 << log_domain) * alpha` -/
+def expTable (logDomain dnum resB : Nat) : List Int :=
+  let alpha := nextPow2 dnum
+  (List.range (2 ^ logDomain * alpha)).map fun x => if x < dnum then 2 ^ (resB * (dnum - 1 - x)) else 0
+
+/-- `glwe_trace(skip, ·)` at plaintext level: keeps the coefficients that are multiples of `N >> skip` (C03), zero elsewhere -/
+def traceP (n skip : Nat) (p : List Vec) : List Vec :=
+  p.mapIdx fun j v => if j % (n >>> skip) = 0 then v else v.map fun _ => 0
+
+/-- `glwe_pack(res, cts, log_gap_out)` at plaintext level (C03): the constant coefficient of `cts[k]` goes to coefficient
+`k`; coefficients without a ciphertext are zero; the final `glwe_trace(log_n - log_gap_out)` -/
+def packP (n logn size lgo : Nat) (cts : List (Nat × List Vec)) : List Vec :=
+  traceP n (logn - lgo) ((List.range n).map fun j =>
+    match cts.find? (fun c => c.1 == j) with
+    | some c => (c.2[0]?).getD (List.replicate size 0)
+    | none => List.replicate size 0)
+
+/-- `log_gap_in = usize::BITS - (gap * alpha - 1).leading_zeros()` -/
+def logGapIn (gap alpha : Nat) : Nat := bitLen (gap * alpha - 1)
+
+/-- `post_process(res, a, log_gap_in, log_gap_out, log_domain)` (after repair 25: the partial trace keeps the multiples of
+`2^log_gap_in`, `skip = log_n - log_gap_in`); `old = true` is the code before the repair (`skip = log_n - log_gap_in + 1`:
+multiples of `2^log_gap_in / 2`) -/
+def postProcess (old : Bool) (n logn size lgi lgo logDomain : Nat) (a : List Vec) : List Vec :=
+  let skip := if old then logn - lgi + 1 else logn - lgi
+  if lgi ≠ lgo then
+    let aTrace := traceP n skip a
+    let cts := (List.range (2 ^ logDomain)).map fun i =>
+      (i * 2 ^ lgo, (List.range i).foldl (fun p _ => rotate (-((2 ^ lgi : Nat) : Int)) p) aTrace)
+    packP n logn size lgo cts
+  else traceP n skip a
+
+/-- the row loop of the exponent mode: `row_i ← post_process(res); res ← X^{-gap}·res` -/
+def expRows (old : Bool) (n logn size dnum gap lgo logDomain : Nat) (P : List Vec) : List (List Vec) :=
+  (List.range dnum).map fun i =>
+    postProcess old n logn size (logGapIn gap (nextPow2 dnum)) lgo logDomain
+      ((List.range i).foldl (fun p _ => rotate (-(gap : Int)) p) P)
 
 end Cbt
